@@ -19,6 +19,8 @@ import (
 type FlagEval struct {
 	Info *types.Info
 	Flag types.Object // the flag parameter (may be nil)
+	// Atoms maps boolean variables/fields to a bit of the flag value: a use of the atom evaluates to that bit.
+	Atoms map[types.Object]uint
 	// Delegate reports whether call is a delegate call and which argument carries the flag.
 	Delegate func(call *ast.CallExpr) (arg ast.Expr, ok bool)
 
@@ -111,7 +113,13 @@ func (e *FlagEval) scan(n ast.Node, env fenv) {
 			return false
 		case *ast.CallExpr:
 			if arg, ok := e.Delegate(c); ok {
-				if v, ok := e.eval(arg, env); ok {
+				if arg == nil {
+					if env.known {
+						e.Reached[env.val] = true
+					} else {
+						e.Unknown = append(e.Unknown, c.Pos())
+					}
+				} else if v, ok := e.eval(arg, env); ok {
 					e.Reached[v] = true
 				} else {
 					e.Unknown = append(e.Unknown, c.Pos())
@@ -378,6 +386,14 @@ func (e *FlagEval) eval(x ast.Expr, env fenv) (uint64, bool) {
 	case *ast.Ident:
 		if e.Flag != nil && e.Info.Uses[n] == e.Flag {
 			return env.val, env.known
+		}
+		if bit, ok := e.Atoms[e.Info.Uses[n]]; ok && env.known {
+			return (env.val >> bit) & 1, true
+		}
+		return 0, false
+	case *ast.SelectorExpr:
+		if bit, ok := e.Atoms[e.Info.Uses[n.Sel]]; ok && env.known {
+			return (env.val >> bit) & 1, true
 		}
 		return 0, false
 	case *ast.CallExpr:
